@@ -1,4 +1,5 @@
 import MgpuModel.C11
+import MgpuProofs.C11Copy
 /-! # C11 — property theorems (host/device copies move exactly the requested bytes)
 
 Only property statements live here; helper lemmas are in `MgpuProofs/C11*.lean`. -/
@@ -97,5 +98,120 @@ theorem overlap_gap (s1 e1 s2 e2 : Nat) (h1 : s1 < e1) (h2 : s2 < e2) :
     omega
   · rintro ⟨a, b⟩
     exact ⟨⟨by omega, by omega⟩, s1, Nat.le_refl _, h1, by omega, by omega⟩
+
+/-! ## Copies through the page table: tiling, round trip, frame, latest write -/
+
+/-- a 3-page table (4-byte pages at virtual 16, 20, 24) whose physical order is permuted
+    (108, 100, 104), used by the `example`s; a copy of 8 bytes at 18 crosses both page boundaries -/
+def demoPt : List Page := [⟨16, 108, 4⟩, ⟨20, 100, 4⟩, ⟨24, 104, 4⟩]
+
+example : PtInj demoPt := by decide
+
+/-- **Page-wise splitting is exact.** Whenever the loop of `processMemCopyH2D/D2HCommand`
+    succeeds (`left ≤ fuel` is how both callers start it), its pieces `(paddr, dataOffset, len)`
+    satisfy `Tiles` (see `MgpuProofs/C11Copy.lean`): data offsets are consecutive from `off`, virtual
+    addresses consecutive from `addr`, every length is positive, every piece lies inside the ONE page
+    that `findPage` returns for its first byte, with `paddr = page.paddr + (vaddr − page.vaddr)`, and
+    the lengths add up to `left`. The loop fails — the "page not found" panic — exactly when some
+    byte of the range has no page. No hypothesis on the page table. -/
+theorem pieces_tile (pt : List Page) (fuel addr off left : Nat) (hle : left ≤ fuel) :
+    (∀ ps, pieces pt fuel addr off left = some ps →
+        Tiles pt addr off ps ∧ (ps.map (·.2.2)).sum = left) ∧
+    (pieces pt fuel addr off left = none ↔ ∃ i, i < left ∧ findPage pt (addr + i) = none) :=
+  ⟨fun ps h => pieces_tiles fuel addr off left ps hle h, pieces_none_iff fuel addr off left hle⟩
+
+example : pieces demoPt 8 18 0 8 = some [(110, 0, 2), (100, 2, 4), (104, 6, 2)] ∧
+    pieces demoPt 8 18 0 11 = none ∧ findPage demoPt 28 = none := by decide
+
+/-- **A copy is defined exactly when its whole range is mapped** (otherwise the real code panics
+    with "page not found"). -/
+theorem h2d_defined_iff (pt : List Page) (m : Mem) (addr : Nat) (data : List Nat) :
+    (∃ m', h2d pt m addr data = some m') ↔ ∀ i, i < data.length → translate pt (addr + i) ≠ none := by
+  constructor
+  · rintro ⟨m', h⟩
+    obtain ⟨ps, hp, _⟩ := h2d_some h
+    exact pieces_mapped (Nat.le_refl _) hp
+  · intro hm
+    obtain ⟨ps, hp⟩ := pieces_some_of_mapped (off := 0) (Nat.le_refl data.length) hm
+    exact ⟨foldW data ps m, by rw [h2d_eq, hp]; rfl⟩
+
+/-- **Per-byte effect of a host-to-device copy**: byte `i` of the data ends up at the physical
+    address the page table assigns to `addr + i`. -/
+theorem h2d_bytes (pt : List Page) (hinj : PtInj pt) (m m' : Mem) (addr : Nat) (data : List Nat)
+    (h : h2d pt m addr data = some m') (i : Nat) (hi : i < data.length) :
+    translate pt (addr + i) = some (tr pt (addr + i)) ∧ m' (tr pt (addr + i)) = data.getD i 0 := by
+  obtain ⟨ps, hp, _⟩ := h2d_some h
+  have hm := pieces_mapped (Nat.le_refl _) hp i hi
+  refine ⟨translate_eq_tr hm, ?_⟩
+  rw [h2d_view hinj h _ hm, if_pos (by omega), Nat.add_sub_cancel_left]
+
+/-- **Round trip (headline).** For every injective page table (`PtInj`: pages pairwise disjoint
+    virtually and physically — C10's invariant), every memory, address and data whose range is
+    mapped: the host-to-device copy succeeds and copying the same range back returns exactly the
+    data. The table is arbitrary, so ranges spanning any number of pages — and therefore the
+    memories of several GPUs, in any physical order — are covered. -/
+theorem h2d_d2h_roundtrip (pt : List Page) (hinj : PtInj pt) (m : Mem) (addr : Nat) (data : List Nat)
+    (hmap : ∀ i, i < data.length → translate pt (addr + i) ≠ none) :
+    ∃ m', h2d pt m addr data = some m' ∧ d2h pt m' addr data.length = some data := by
+  obtain ⟨m', h⟩ := (h2d_defined_iff pt m addr data).2 hmap
+  refine ⟨m', h, ?_⟩
+  obtain ⟨ps, hp, _⟩ := h2d_some h
+  have : d2h pt m' addr data.length = some ((List.range data.length).map fun i => m' (tr pt (addr + i))) := by
+    unfold d2h; rw [hp]; simp only [Option.map_some]
+    rw [read_spec hinj m' data.length addr 0 data.length ps (Nat.le_refl _) hp]
+  rw [this]; congr 1
+  rw [← map_getD_range data]
+  simp only [List.length_map, List.length_range]
+  apply List.map_congr_left
+  intro i hi
+  exact (h2d_bytes pt hinj m m' addr data h i (List.mem_range.1 hi)).2
+
+example : (h2d demoPt (fun a => a % 7) 18 [1, 2, 3, 4, 5, 6, 7, 8]).bind
+    (fun m' => d2h demoPt m' 18 8) = some [1, 2, 3, 4, 5, 6, 7, 8] := by decide
+
+/-- **Frame.** A host-to-device copy changes no physical byte other than the images of the bytes
+    of its range — in particular nothing in other pages, other buffers or other GPUs' memories.
+    (The device-to-host direction cannot change memory at all: `d2h` returns only the bytes read,
+    `d2h : List Page → Mem → Nat → Nat → Option (List Nat)`.) -/
+theorem h2d_frame (pt : List Page) (hinj : PtInj pt) (m m' : Mem) (addr : Nat) (data : List Nat)
+    (h : h2d pt m addr data = some m') (q : Nat)
+    (hq : ∀ i, i < data.length → translate pt (addr + i) ≠ some q) : m' q = m q := by
+  obtain ⟨ps, hp, rfl⟩ := h2d_some h
+  exact (foldW_spec hinj data data.length addr 0 data.length ps m (Nat.le_refl _) (by omega) hp).2 q hq
+
+example : ((h2d demoPt (fun a => a % 7) 18 [1, 2, 3, 4, 5, 6, 7, 8]).map
+    fun m' => (List.range 14).map fun k => m' (99 + k)) =
+    some [1, 3, 4, 5, 6, 7, 8, 1, 2, 3, 4, 1, 2, 0] := by decide
+
+/-- **A device-to-host copy observes the latest write, byte by byte.** After two host-to-device
+    copies to arbitrary (possibly overlapping, possibly differently aligned) ranges, reading any
+    mapped range returns for each byte the value of the newer copy where it covers the byte,
+    else of the older copy where that covers it, else the original memory content. -/
+theorem d2h_reads_latest (pt : List Page) (hinj : PtInj pt) (m m1 m2 : Mem)
+    (a1 : Nat) (d1 : List Nat) (a2 : Nat) (d2 : List Nat) (a len : Nat) (out : List Nat)
+    (h1 : h2d pt m a1 d1 = some m1) (h2 : h2d pt m1 a2 d2 = some m2)
+    (h3 : d2h pt m2 a len = some out) :
+    out.length = len ∧ ∀ i, i < len → out.getD i 0 =
+      if a2 ≤ a + i ∧ a + i < a2 + d2.length then d2.getD (a + i - a2) 0
+      else if a1 ≤ a + i ∧ a + i < a1 + d1.length then d1.getD (a + i - a1) 0
+      else m (tr pt (a + i)) := by
+  have hout := d2h_spec hinj h3
+  have hmapped : ∀ i, i < len → translate pt (a + i) ≠ none := by
+    unfold d2h at h3
+    cases hp : pieces pt len a 0 len with
+    | none => simp [hp] at h3
+    | some ps => exact pieces_mapped (Nat.le_refl _) hp
+  subst hout
+  refine ⟨by simp, fun i hi => ?_⟩
+  rw [List.getD_eq_getElem?_getD, List.getElem?_map, List.getElem?_range hi]
+  simp only [Option.map_some, Option.getD_some]
+  rw [h2d_view hinj h2 _ (hmapped i hi)]
+  split
+  · rfl
+  · exact h2d_view hinj h1 _ (hmapped i hi)
+
+example : ((h2d demoPt (fun a => a % 7) 16 [1, 2, 3, 4, 5, 6]).bind fun m1 =>
+    (h2d demoPt m1 19 [11, 12, 13, 14, 15, 16, 17]).bind fun m2 => d2h demoPt m2 17 10) =
+    some [2, 3, 11, 12, 13, 14, 15, 16, 17, 1] := by decide
 
 end C11
